@@ -473,6 +473,13 @@ def alloc_groups(tag, tier):
     bk = [Group('%s.lifecycle.LweBootstrappingKey.k=%d.l=%d' % (tag, K, L), 'c16_alloc.c', 'h_alloc_bk', extract=alloc_bk_extract(),
                 defines={'VERIF_K': K, 'VERIF_L': L, 'H_ALLOC_BK': None}, unwind=max((K + 1) * L, 8 * K) + 3, cbmc=['--memory-leak-check'], timeout=1800,
                 instance={'k': K, 'l': L, 'n': 2, 'N': 2, 't': 2, 'basebit': 1}) for (K, L) in ([(1, 2), (2, 2)] if tier == 'quick' else shapes[:5])]
+    TLF_, TGF_ = 'tlwe-fft-operations.cpp', 'tgsw-fft-operations.cpp'
+    fft_ex = alloc_extract() + [('tlwe.cpp', 'TLweSampleFFT::TLweSampleFFT'), ('tlwe.cpp', 'TLweSampleFFT::~TLweSampleFFT'), (TLF_, 'init_TLweSampleFFT'), (TLF_, 'destroy_TLweSampleFFT'),
+                                ('tgsw.cpp', 'TGswSampleFFT::TGswSampleFFT'), ('tgsw.cpp', 'TGswSampleFFT::~TGswSampleFFT'), (TGF_, 'init_TGswSampleFFT'), (TGF_, 'destroy_TGswSampleFFT'),
+                                ('tgsw.cpp', 'TGswKey::TGswKey'), ('tgsw.cpp', 'TGswKey::~TGswKey')]
+    fft_ex += [(AG, f % 'TGswKey') for f in ['alloc_%s', 'free_%s', 'init_%s', 'destroy_%s', 'new_%s', 'delete_%s']]
+    bk += [Group('%s.lifecycle.fft_samples+TGswKey.k=%d.l=%d' % (tag, K, L), 'c16_alloc.c', 'h_alloc_fft', extract=fft_ex, defines={'VERIF_K': K, 'VERIF_L': L, 'H_ALLOC_FFT': None},
+                 unwind=(K + 1) * L + 3, cbmc=['--memory-leak-check'], timeout=1800, instance={'k': K, 'l': L}) for (K, L) in ([(1, 2), (2, 2)] if tier == 'quick' else shapes[:5])]
     return bk + [Group('%s.lifecycle.k=%d.l=%d' % (tag, K, L), 'c16_alloc.c', 'h_alloc', extract=alloc_extract(), defines={'VERIF_K': K, 'VERIF_L': L},
                   unwind=(K + 1) * L + 3, cbmc=['--memory-leak-check'], timeout=1800, instance={'k': K, 'l': L}) for (K, L) in shapes]
 
